@@ -1,5 +1,6 @@
 import GodiProofs.Container.Instances
 import GodiProofs.Container.ScopedHistory
+import GodiProofs.Container.ScopedInit
 /-!
 # C02 — Scoped: one instance per scope, never shared between scopes (sequential clauses)
 
@@ -128,5 +129,59 @@ def ex : List Desc :=
 example : let st := (providerCreateScope {} (providerCreateScope {} (buildRuntime {} ex []).1 0).1 0).1
     (scopeGet {} (scopeGet {} (scopeGet {} st 1 3 0).1 1 3 0).1 2 3 0).1.log =
       [.ctor 0 1 1 1 [] [1], .ctor 0 1 2 2 [] [2]] := by decide
+
+/-- ONE INSTANCE PER SCOPE, registries WITH scope initializers (`Container/ScopedInit.lean`): the hypothesis
+`st.initializers = []` of `one_instance_per_scope` is replaced by `InitsRanked`: the initializer ids name scoped
+registrations, and the rank increases strictly along the initializer list (nothing depends on a registration that
+provides no service, so a rank that witnesses acyclicity can always be arranged that way). Then every CreateScope of the
+history runs each initializer in the fresh scope — closing the scope again when one fails — and still no scoped
+constructor, an initializer's included, succeeds twice in one scope. -/
+theorem one_instance_per_scope_with_initializers (beh : Beh) (descs : List Desc) (rank : Nat → Nat)
+    (cfg : Cfg descs rank) (st : State) (inv : SInv descs st) (hi : InitsRanked descs rank st.initializers)
+    (ops : List Op) (hv : ValidHist beh st ops) (s c : Nat) (hc : ScopedCtor descs c) :
+    countIn (run beh st ops).log c s ≤ 1 ∧
+    (countIn (run beh st ops).log c s = 1 → ((run beh st ops).scope s).disposed = false →
+      ∀ d ∈ descs, d.ctor = c → Cached (run beh st ops) s d.ident) := by
+  have h := sinv_run_init beh descs rank cfg ops st inv hi hv
+  exact ⟨h.atMost s c hc, h.stored s c hc⟩
+
+/-- … and the state Build hands over satisfies the invariant: running the initializers in the root scope of a state
+in which they have not run there yet (`invariant_initially`) preserves it -/
+theorem root_initializers_preserve (beh : Beh) (descs : List Desc) (rank : Nat → Nat) (cfg : Cfg descs rank)
+    (st : State) (inv : SInv descs st) (ho : OpenCache st rootScope) (hs : rootScope < st.nscopes) (inits : List Nat)
+    (hi : InitsRanked descs rank inits)
+    (hz : ∀ id ∈ inits, ∀ d, findDesc descs id = some d → countIn st.log d.ctor rootScope = 0) :
+    SInv descs (runInitializers beh st rootScope inits).1 :=
+  (sinv_runInitializers beh descs rank cfg rootScope inits st inv ho hs hi hz).1
+
+/-- a scoped service (constructor 1) and two initializers that both take it (constructors 2 and 3) -/
+def exInit : List Desc :=
+  [{ id := 0, ident := ⟨3, 0, 0⟩, life := .scoped, ctor := 1, kind := .plain, deps := [] },
+   { id := 1, ident := ⟨20, 0, 0⟩, life := .scoped, ctor := 2, kind := .void, deps := [{ ty := 3 }] },
+   { id := 2, ident := ⟨21, 0, 0⟩, life := .scoped, ctor := 3, kind := .void, deps := [{ ty := 3 }] }]
+/-- non-vacuity of `InitsRanked`: the rank "constructor number" increases along the initializer list [1, 2] -/
+example : InitsRanked exInit (fun c => c) [1, 2] := by
+  refine ⟨fun d h => ?_, ⟨fun d h => ?_, trivial⟩⟩
+  · have e : d = { id := 1, ident := ⟨20, 0, 0⟩, life := .scoped, ctor := 2, kind := .void, deps := [{ ty := 3 }] } := by
+      simp [findDesc, exInit] at h; exact h.symm
+    subst e
+    refine ⟨rfl, ?_⟩
+    intro id' hid' d' hd'
+    simp only [List.mem_singleton] at hid'
+    subst hid'
+    have e' : d' = { id := 2, ident := ⟨21, 0, 0⟩, life := .scoped, ctor := 3, kind := .void, deps := [{ ty := 3 }] } := by
+      simp [findDesc, exInit] at hd'; exact hd'.symm
+    subst e'
+    decide
+  · have e : d = { id := 2, ident := ⟨21, 0, 0⟩, life := .scoped, ctor := 3, kind := .void, deps := [{ ty := 3 }] } := by
+      simp [findDesc, exInit] at h; exact h.symm
+    subst e
+    exact ⟨rfl, fun id' hid' => by cases hid'⟩
+/-- Build runs both initializers in the root scope (s0); a new scope runs them again, there: the service they share is
+constructed once per scope, each initializer once per scope -/
+example : let st := (providerCreateScope {} (buildRuntime {} exInit []).1 0).1
+    st.initializers = [1, 2] ∧
+    (countIn st.log 1 0, countIn st.log 2 0, countIn st.log 3 0, countIn st.log 1 1, countIn st.log 2 1, countIn st.log 3 1) =
+      (1, 1, 1, 1, 1, 1) := by decide
 
 end Godi.Props.C02
